@@ -167,6 +167,17 @@ int main() {
     if (cs.size() != 1 || cs[0]->left != vs[0] || cs[0]->right != vs[1] || cs[0]->gap != -30.0 || cs[0]->equality) {
       printf("SeparationConstraint(XDIM, 0, 1, -30): generated var%d + %g %s var%d\n", cs.empty() ? -1 : cs[0]->left->id, cs.empty() ? 0.0 : cs[0]->gap, (!cs.empty() && cs[0]->equality) ? "==" : "<=", cs.empty() ? -1 : cs[0]->right->id); bad++; }
   }
+  {
+    // the same constraint objects go through makeFeasible() twice (second layout over the same rectangles and constraints after a node was dragged)
+    vpsc::Rectangles rs; rs.push_back(new vpsc::Rectangle(0, 10, 0, 10)); rs.push_back(new vpsc::Rectangle(60, 70, 0, 10));
+    std::vector<cola::Edge> es; es.push_back(cola::Edge(0, 1));
+    CompoundConstraints ccs; ccs.push_back(new SeparationConstraint(vpsc::XDIM, 0, 1, 40, false));
+    { ConstrainedFDLayout first(rs, es, 50); first.setConstraints(ccs); first.makeFeasible(); }
+    rs[1]->moveCentreX(rs[0]->getCentreX() - 25);                      // drag node 1 to the wrong side
+    { ConstrainedFDLayout second(rs, es, 50); second.setConstraints(ccs); UnsatisfiableConstraintInfos ux, uy; second.setUnsatisfiableConstraintInfo(&ux, &uy); second.makeFeasible();
+      double x0 = rs[0]->getCentreX(), x1 = rs[1]->getCentreX();
+      if (ux.empty() && !(x0 + 40 <= x1 + 1e-4)) { printf("second makeFeasible() over the same constraint objects: x0 + 40 <= x1 violated (x0=%g, x1=%g), nothing reported\n", x0, x1); bad++; } }
+  }
   if (bad) { printf("REPRODUCED: %d generated constraint(s) / projected coordinate(s) differ from the user constraint\n", bad); return 1; }
   printf("not reproduced\n"); return 0;
 }
@@ -545,6 +556,29 @@ def jobs(tier):
                   flags=["--sat-solver", "cadical", "--no-malloc-may-fail"], backend="sat:cadical", unwind=8, replay=replay_c07, timeout=600,
                   domain="both constructor forms, every gap (all doubles, compared bit for bit, negative included), equality or not, every pair of distinct node indices below 4 / both orders of two guide lines, both dimensions",
                   expect=[r'h_ctor_roundtrip\.assertion']))
+    # ---------------- makeFeasible's cursor over a compound constraint's sub-constraints: markAllSubConstraintsAsInactive REWINDS it, so that every
+    #                  later makeFeasible() (second call, or a new layout over the same constraint objects) considers every sub-constraint again
+    mai = slice_func(CC, r'^void CompoundConstraint::markAllSubConstraintsAsInactive\(void\)', "CompoundConstraint::markAllSubConstraintsAsInactive")
+    scr = slice_func(CC, r'^bool CompoundConstraint::subConstraintsRemaining\(void\) const', "CompoundConstraint::subConstraintsRemaining")
+    mca = slice_func(CC, r'^void CompoundConstraint::markCurrSubConstraintAsActive\(const bool satisfiable\)', "CompoundConstraint::markCurrSubConstraintAsActive")
+    cur_pre = pre({}).replace("        void assertValidVariableIndex(const vpsc::Variables& vars, const unsigned index);\n",
+                              "        void assertValidVariableIndex(const vpsc::Variables& vars, const unsigned index);\n        void markAllSubConstraintsAsInactive(void);\n"
+                              "        bool subConstraintsRemaining(void) const;\n        void markCurrSubConstraintAsActive(const bool satisfiable);\n", 1)
+    if cur_pre == pre({}):
+        raise Undecided("C07: prelude/cola_compound.h: CompoundConstraint declaration anchor not found")
+    cur_cxx = (base + vpsc_part + cur_pre + "namespace cola {\n" + mai.text + "\n" + scr.text + "\n" + mca.text + "\n}\n"
+               "static cola::CompoundConstraint verif_cc; static cola::SubConstraintInfo verif_info[3]; static cola::SubConstraintInfo *verif_infop[3];\n"
+               'extern "C" void verif_cursor_scene(unsigned n, unsigned long cursor, int s0, int s1, int s2) { int S[3] = {s0, s1, s2};\n'
+               "  for (int k = 0; k < 3; ++k) { verif_info[k].satisfied = S[k] != 0; verif_infop[k] = &verif_info[k]; }\n"
+               "  verif_cc._subConstraintInfo._d = verif_infop; verif_cc._subConstraintInfo._n = n; verif_cc._subConstraintInfo._cap = 3; verif_cc._currSubConstraintIndex = cursor; }\n"
+               'extern "C" void w_mark_all_inactive(void) { verif_cc.markAllSubConstraintsAsInactive(); }\n'
+               'extern "C" int w_remaining(void) { return verif_cc.subConstraintsRemaining() ? 1 : 0; }\n'
+               'extern "C" void w_mark_curr(int sat) { verif_cc.markCurrSubConstraintAsActive(sat != 0); }\n'
+               'extern "C" unsigned long verif_cursor(void) { return verif_cc._currSubConstraintIndex; }\nextern "C" int verif_satisfied(unsigned k) { return verif_info[k].satisfied ? 1 : 0; }\n')
+    js.append(Job("subconstraint_cursor_rewinds", "B", spec, "h_cursor", cxx=cur_cxx, defines=["JOB_cursor"], slices=[mai, scr, mca], unwind=6, replay=replay_c07,
+                  flags=["--sat-solver", "cadical"], backend="sat:cadical",
+                  bound="compound constraints with 0 to 3 sub-constraints (loops unwound 6 times with unwinding assertions), every earlier cursor position and flag pattern",
+                  domain="every such constraint state", expect=[r'h_cursor\.assertion']))
     return js
 
 
@@ -571,6 +605,7 @@ ASSUMPTIONS = [
     "live constraints' is instantiated at each access through the stub vector's element hook); priorities, alternatives' order and the restore of positions are not",
     "separation_ctor_then_generate runs the constructors' BODIES on an object whose members hold what the initialiser lists (checked textually: gap(g), equality(equality), "
     "CompoundConstraint(dim)) give them; CompoundConstraint's own constructor is not under contract",
+    "subconstraint_cursor_rewinds is a BOUNDED stand-in (up to 3 sub-constraints) for the cursor protocol makeFeasible relies on (markAllSubConstraintsAsInactive / subConstraintsRemaining / markCurrSubConstraintAsActive)",
     "virtual dispatch from setupVarsAndConstraints/setupExtraConstraints to the generate* members is not modelled (CBMC's C++ front end; the classes are checked one by one)",
     "variable ids are assumed non-negative (they are positions in the variable list: established for guide lines by the *_generateVariables jobs, for nodes by "
     "setupVarsAndConstraints' `new vpsc::Variable(i, coords[i])` which is not under contract)",
